@@ -1,7 +1,18 @@
 pub struct VxParseFloatError { _x: u8 }
-/// stand-in for `s.parse::<f64>()` (A4: total)
+/// what `str::parse::<f64>()` returns for a text (A4: total, a function of the text)
+pub uninterp spec fn f64_of_text(t: Seq<char>) -> Option<f64>;
+/// stand-in for `s.parse::<f64>()`
 #[verifier::external_body]
 pub fn vx_parse_f64(s: &str) -> (r: Result<f64, VxParseFloatError>)
+    ensures (r matches Ok(v) ==> f64_of_text(s@) == Some(v)), (r is Err ==> f64_of_text(s@) is None),
 {
     unimplemented!()
+}
+/// the f64 value of `acc * base + d as f64` (A8: a function of the operands; rounding not modelled)
+pub uninterp spec fn f_mul_add(acc: f64, base: f64, d: int) -> f64;
+#[verifier::external_body]
+pub fn vx_f64_mul_add(acc: f64, base: f64, d: i64) -> (r: f64)
+    ensures r == f_mul_add(acc, base, d as int),
+{
+    acc * base + d as f64
 }
